@@ -385,7 +385,7 @@ def angleBetween(ref_point_1, ref_point_2, ref_point_3):
     return res
 
 #Wrench Operations
-def makeWrench(position_applied, force, force_direction_vector, frame_applied = tm()):
+def makeWrench(position_applied, force, force_direction_vector, frame_applied = None):
     """
     Generate a new wrench.
 
@@ -393,7 +393,7 @@ def makeWrench(position_applied, force, force_direction_vector, frame_applied = 
         position_applied: relative position ation of wrench
         force: magnitude of force applied (or mass if force_direction_vector is a gravity vector)
         force_direction_vector: unit vector to apply force (or gravity)
-        frame_applied (tm, Optional) : frame of the wrench
+        frame_applied (tm, Optional) : frame of the wrench. If not specified, a new origin frame.
     Returns:
         wrench
     """
